@@ -372,11 +372,13 @@ class MailboxData(MailboxDataInterface[Message]):
                     self.messages_lock.write_lock()):
             try:
                 codes = maildir.get_message_metadata(rec.key).get_flags()
-                new_filename = maildir.move_message(
+                new_name = maildir.move_message(
                     rec.key, dest_maildir, dest_subdir,
                     self._dest_flags(codes, destination))
             except (KeyError, FileNotFoundError):
                 return None
+        # uidlist records name the file as key ':' info, whatever --colon is
+        new_filename = rec.key + ':' + new_name[len(rec.key) + 1:]
         async with UidList.with_write(self._path) as uidl:
             # the record must not outlive the message here: its key travels
             # with the file and would revive this UID if the file came back
